@@ -308,8 +308,8 @@ def others(prog, rep):
                 grid = Z[1][1][2][0]
                 if grid[0] == "cols" and len(grid[1]) == 2:
                     mx, my = grid[1]
-                    if mx[0] == "call" and mx[1][2] == "ravel" and my[0] == "call" and my[1][2] == "ravel":
-                        MX, MY = mx[1][1], my[1][1]
+                    if mx[0] == "call" and mx[1] == G("numpy.ravel") and my[0] == "call" and my[1] == G("numpy.ravel") and len(mx[2]) == 1 and len(my[2]) == 1:
+                        MX, MY = mx[2][0], my[2][0]
                         # unswapped: X=MX, Y=MY ; swapped: X=MY, Y=MX
                         def val(g, lit):
                             for k, v in g.items():
